@@ -85,18 +85,16 @@ package capacity_policy
 //@ end
 
 // ---- requested quantities of a set of tasks ------------------------------------------------------
-// reqCpu(n)/reqMem(n)/reqGpu(n): prefix sums over the first n tasks of THE tasksToAllocate argument
+// reqCpu(n)/reqMem(n): prefix sums over the first n tasks of THE tasksToAllocate argument
 // (let-bound by the `requires sumsOf(...)` clause of each function that takes such a slice).
 //@ declare reqCpu(n int) real
 //@ declare reqMem(n int) real
-//@ declare reqGpu(n int) real
 //@ define tasksOK(tasks []*pod_info.PodInfo) bool = forall i int :: 0 <= i && i < len(tasks) ==> tasks[i] != nil && tasks[i].ResReq != nil
 //@ define sumsOf(tasks []*pod_info.PodInfo) bool = reqCpu(0) == 0.0 && reqMem(0) == 0.0 && (forall i int :: 0 <= i && i < len(tasks) ==> reqCpu(i+1) == reqCpu(i) + tasks[i].ResReq.milliCpu) && (forall i int :: 0 <= i && i < len(tasks) ==> reqMem(i+1) == reqMem(i) + tasks[i].ResReq.memory)
-//@ define gpuSumOf(tasks []*pod_info.PodInfo) bool = reqGpu(0) == 0.0 && (forall i int :: 0 <= i && i < len(tasks) ==> reqGpu(i+1) == reqGpu(i) + tasks[i].ResReq.GetGpusQuota())
 
 // The quantity checked for a job = component-wise sum of cpu, memory and total GPU quota of the tasks.
 // Proved for cpu and memory. The GPU component (sum of GetGpusQuota() of each task's ResReq) is NOT
-// claimed: gpuSumOf needs a spec call whose receiver depends on the bound index, for which the engine
+// claimed: its sum definition needs a spec call whose receiver depends on the bound index, for which the engine
 // drops the callee contract, and the embedded GpuResourceRequirement cannot be passed to ri.gpusQuota.
 //@ func getRequiredQuota
 //@   props C08 C10
